@@ -130,7 +130,20 @@ def compare_runs(run, case, seed, labels, key):
     # some record holds an atom position that is not one of the initial positions, or another cell
     # (a run that only deletes the initial particles is the same for every seed)
     rows0 = {tuple(x) for x in np.frombuffer(a[0][0], dtype=float).reshape(-1, 3).tolist()} if a else set()
-    seed_sensitive = any(r[1] != a[0][1] or any(tuple(x) not in rows0 for x in np.frombuffer(r[0], dtype=float).reshape(-1, 3).tolist()) for r in a)
+    # (changes at rounding level - a rotation of a single atom, of coincident atoms - do not count: they carry no seed)
+    init_rows = np.array(sorted(rows0), dtype=float).reshape(-1, 3) if rows0 else np.zeros((0, 3))
+    cell0 = np.frombuffer(a[0][1], dtype=float) if a else np.zeros(9)
+
+    def really_moved(r):
+        if np.abs(np.frombuffer(r[1], dtype=float) - cell0).max() > 1e-9:
+            return True
+        pos = np.frombuffer(r[0], dtype=float).reshape(-1, 3)
+        if len(init_rows) == 0:
+            return len(pos) > 0
+        dmin = np.abs(pos[:, None, :] - init_rows[None, :, :]).max(axis=2).min(axis=1) if len(pos) else np.zeros(0)
+        return bool(len(dmin) and dmin.max() > 1e-9)
+
+    seed_sensitive = any(really_moved(r) for r in a)
     out = {"labels": labels + (["moving"] if nontrivial else ["static"]), "nontrivial": nontrivial, "key": key, "violation": None}
     if len(a) != len(b):
         out["violation"] = {"kind": "same-seed-differs:length", "detail": f"seed {seed}: runs recorded {len(a)} vs {len(b)} steps"}
@@ -163,6 +176,48 @@ def compare_runs(run, case, seed, labels, key):
     return out
 
 
+def default_operation_runs(seed, ens):
+    """Two identically built simulations whose moves use their DEFAULT operations; between them the first one's
+    operations are adapted in place (step-size tuning). Returns the two digests."""
+    from ase import Atoms
+
+    from quansino.mc import canonical, isobaric
+    from quansino.moves.cell import CellMove
+    from quansino.moves.displacement import DisplacementMove, HamiltonianDisplacementMove
+    from vlib.calcs import FastCalc
+
+    def once(adapt_after):
+        atoms = Atoms("Ar4", positions=[[1, 1, 1], [3, 1.2, 1.1], [1.3, 3.1, 2.9], [3.2, 3.0, 1.0]], cell=[5, 5, 5], pbc=True)
+        atoms.calc = FastCalc("pair", {"k": 0.05, "center": (2.5, 2.5, 2.5), "a": 0.4, "s": 1.6})
+        with warnings.catch_warnings():
+            warnings.simplefilter("ignore")
+            if ens == "Canonical":
+                mc = canonical.Canonical(atoms, temperature=800.0, max_cycles=2, seed=seed)
+                mc.add_move(DisplacementMove(np.arange(4)), name="d")
+            elif ens == "HamiltonianCanonical":
+                mc = canonical.HamiltonianCanonical(atoms, temperature=800.0, max_cycles=1, seed=seed)
+                mc.add_move(HamiltonianDisplacementMove(), name="h")
+            else:
+                mc = isobaric.Isobaric(atoms, temperature=800.0, pressure=0.01, max_cycles=2, seed=seed)
+                mc.add_move(CellMove(), name="c")
+                mc.add_move(DisplacementMove(np.arange(4)), name="d")
+            recs = []
+            for step in mc.irun(5):
+                for _ in step:
+                    pass
+                recs.append((atoms.positions.tobytes(), atoms.cell.array.tobytes()))
+            if adapt_after:
+                for st_ in mc.moves.values():
+                    op = st_.move.operation
+                    for attr, f in (("step_size", 3.0), ("max_value", 2.0), ("dt", 0.5)):
+                        if hasattr(op, attr):
+                            setattr(op, attr, getattr(op, attr) * f)  # in-place tuning of this simulation's own operation
+            mc.close()
+        return recs
+
+    return once(True), once(False)
+
+
 def run_mc(case):
     scn = case["scn"]
     from props.c03 import shape
@@ -173,6 +228,17 @@ def run_mc(case):
     leaves = [l for e in scn["entries"] for l in S.expr_leaves(e)]
     if any(l.get("forced") for l in leaves):
         out["labels"] = list(out["labels"]) + ["hmc-forced-temperature"]
+    if out.get("violation") is None and not out.get("discard") and case["g1"] % 4 == 0 and scn["ensemble"] in ("Canonical", "HamiltonianCanonical", "Isobaric"):
+        try:
+            first, second = default_operation_runs(int(scn["seed"]) % (2 ** 32), scn["ensemble"])
+        except Exception:
+            first = second = None
+        if first is not None:
+            out["labels"] = list(out["labels"]) + ["default-operations-twice"]
+            if first != second:
+                out["nontrivial"] = True
+                out["violation"] = {"kind": "same-seed-differs:default-operations", "detail": f"seed {scn['seed']} ({scn['ensemble']}): two identically built simulations with default operations differ after the first one's operations were tuned in place"}
+                return out
     if out.get("violation") is None and not out.get("discard") and scn["ensemble"] != "GrandCanonical" and "alias_of" not in scn:
         # configuration objects that already served another simulation are still the same configuration
         try:
